@@ -26,6 +26,10 @@ class SimAbort(BaseException):
     """Unwinds a parked simulated task at teardown or when a cap is hit."""
 
 
+class TaskKilled(BaseException):
+    """Unwinds a simulated process that was terminate()d (SIGTERM)."""
+
+
 class HarnessError(Exception):
     """Something is wrong with the simulator or the harness, not with toasty."""
 
@@ -88,7 +92,7 @@ class Task(object):
     __slots__ = (
         "sim", "name", "proc", "sem", "state", "pred", "deadline", "timed_out",
         "thread", "exc", "exc_tb", "result", "prio", "fn", "is_main", "waiting_op",
-        "on_exit",
+        "on_exit", "killed",
     )
 
     def __init__(self, sim, name, proc, fn, is_main=False):
@@ -109,6 +113,7 @@ class Task(object):
         self.is_main = is_main
         self.waiting_op = None
         self.on_exit = None
+        self.killed = False
 
     @property
     def done(self):
@@ -127,10 +132,12 @@ class Sim(object):
     TRACE_KEEP = 4000
 
     def __init__(self, choices, step_cap=20000, vtime_cap=3600.0, strategy=None,
-                 p_stay=None, p_early=None, keep_trace=True):
+                 p_stay=None, p_early=None, keep_trace=True, no_progress_cap=6000):
         self.choices = choices
         self.step_cap = step_cap
         self.vtime_cap = vtime_cap
+        self.no_progress_cap = no_progress_cap
+        self.last_progress = 0
         self.tasks = []
         self.current = None
         self.now = 0.0
@@ -153,6 +160,7 @@ class Sim(object):
         self.nevents = 0
         self.leaked = 0
         self.faults_stopped_at = None
+        self.at_finish = []
         self.fair_after_stop = True
         self._starve = {}
         self.rootdir = None       # for relative path labels
@@ -193,12 +201,18 @@ class Sim(object):
         if self.keep_trace and len(self.trace) < self.TRACE_KEEP:
             self.trace.append(line)
 
+    def progress(self):
+        """Something other than polling happened (an item moved, a callback
+        ran, a task exited); a long stretch of steps without this is a livelock."""
+        self.last_progress = self.step
+
     def event(self, *ev):
         """Record a property-level history event stamped with the global step."""
         if self.frozen:
             return
         t = current_task()
         rec = (self.step, t.name if t is not None else "-") + ev
+        self.last_progress = self.step
         self.events.append(rec)
         self.log(rec[1], "ev " + " ".join(str(x) for x in ev))
 
@@ -236,16 +250,20 @@ class Sim(object):
             t.state = "done"
             return
         try:
+            if t.killed:
+                raise TaskKilled()
             t.result = t.fn()
         except SimAbort:
             pass
+        except TaskKilled:
+            t.exc = None
         except BaseException as e:  # noqa - recorded, decided by the oracle
             t.exc = e
             t.exc_tb = traceback.format_exc()
         try:
             if t.on_exit is not None and not self.aborting:
                 t.on_exit(t)
-        except SimAbort:
+        except (SimAbort, TaskKilled):
             pass
         except BaseException as e:  # noqa
             if t.exc is None:
@@ -255,6 +273,7 @@ class Sim(object):
         if self.aborting:
             return
         self.log(t.name, "exit")
+        self.last_progress = self.step
         if t.is_main:
             self._finish("returned")
             return
@@ -266,6 +285,7 @@ class Sim(object):
     def _finish(self, status):
         if self.status is None:
             self.status = status
+            self.at_finish = [(t.name, t.state, t.waiting_op if t.state == "blocked" else None) for t in self.tasks]
         self.frozen = True
         self.finished.set()
 
@@ -281,6 +301,8 @@ class Sim(object):
             return
         self._check()
         self.log(t.name, op)
+        if op == "cb" or op.startswith("write"):
+            self.last_progress = self.step
         self._schedule_next(t)
 
     def block_until(self, op, pred, timeout=None):
@@ -313,6 +335,12 @@ class Sim(object):
                 me.sem.acquire()
                 raise SimAbort()
             return
+        if self.step - self.last_progress > self.no_progress_cap:
+            self._finish("no_progress")
+            if me.state != "done":
+                me.sem.acquire()
+                raise SimAbort()
+            return
         if self.now > self.vtime_cap:
             self._finish("vtime_cap")
             if me.state != "done":
@@ -328,7 +356,7 @@ class Sim(object):
             if st == "runnable":
                 enabled.append(t)
             elif st == "blocked":
-                if t.pred is not None and t.pred():
+                if t.killed or (t.pred is not None and t.pred()):
                     enabled.append(t)
                 elif t.deadline is not None:
                     if t.deadline <= now:
@@ -369,12 +397,16 @@ class Sim(object):
             chosen.deadline = None
         self.current = chosen
         if chosen is me:
+            if me.killed and me.state != "done":
+                raise TaskKilled()
             return
         chosen.sem.release()
         if me.state != "done":
             me.sem.acquire()
             if self.aborting:
                 raise SimAbort()
+            if me.killed:
+                raise TaskKilled()
 
     def _pick(self, enabled, me):
         n = len(enabled)
